@@ -290,7 +290,7 @@ class _MockMOFWBEMConnection(ResolverMixin, BaseRepositoryConnection):
                 if 'EmbeddedInstance' in obj.qualifiers:
                     eiqualifier = obj.qualifiers['EmbeddedInstance']
                     # The DMTF spec allows the value to be None
-                    if eiqualifier.value is None:
+                    if not isinstance(eiqualifier.value, str):
                         continue
                     try:
                         self.GetClass(eiqualifier.value, namespace=ns,
